@@ -14,7 +14,7 @@ mkdir -p .cache
 if [ ! -x .cache/vinstr ] || [ cmd/vinstr/main.go -nt .cache/vinstr ]; then
   go build -o .cache/vinstr.$$ ./cmd/vinstr >&2 && mv .cache/vinstr.$$ .cache/vinstr
 fi
-.cache/vinstr -repo "$VERIF_REPO" -verif "$VERIF_ROOT" -out "$work/instr" >&2
+.cache/vinstr -repo "$VERIF_REPO" -target /repo -verif "$VERIF_ROOT" -out "$work/instr" >&2
 # key: instrumented sources + all repo go files/go.mod of the three modules + verif sources
 key=$( { find "$work/instr" -type f | sort | xargs sha256sum | sed "s#$work##";
          find "$VERIF_REPO/bigtable" "$VERIF_REPO/storage" -name '*.go' -o -name 'go.mod' | sort | xargs sha256sum;
